@@ -1,0 +1,16 @@
+//go:build verif
+
+// Contracts for the verifier in /verif (govc). Comment-only.
+
+package schema
+
+// ---------------------------------------------------------------------------------------------------
+// stream.go — streams (C08, C19)
+// ---------------------------------------------------------------------------------------------------
+
+//@ func (*StreamReader).Copy
+//@   props C08
+//@   trusted pending the C08 pass over schema/stream.go
+//@   requires sr != nil
+//@   ensures[len] len(result) == (n < 2 ? 1 : n) && fresh(result)
+//@   ensures[one] n < 2 ==> result[0] == sr
